@@ -281,3 +281,8 @@ def check(ctx):
 
     ctx.paths("R05-f", aex, [("exit", "self.cancel_scope.__exit__($*A)")], step_f, False, at_exit_f,
               instance="the group's scope is exited on every path (also when the shielded exit checkpoint is cancelled natively)", native=True, broad=True)
+
+    # ---- R05-g "no outer cancellation is visible" - the condition under which __exit__ absorbs and uncancels - is computed by a correct
+    # walk of the ancestor chain (shared with C04/R04-a)
+    from .walkers import check_walker
+    check_walker(ctx, "R05-g", ctx.fn("CancelScope._effectively_cancelled", A))
